@@ -172,6 +172,14 @@ def fixed_programs():
         prog(M.cmp_(L("1"), "in", T([I("exp"), L("2")]))),
         prog(M.cmp_(I("y"), "in", I("x")), splitters=["y"]),
     ]
+    # salts / strings that are hostile to naive embedding, with and without splitters
+    for i, t in enumerate(["{", "}", "{}", "{x}", "{0}", "{uid}", "%s", "%(uid)s", "C:\\", "a\\", "it's", 'say "hi"', "\uff02", "\uff07q", "a\rb",
+                           "{{", "$uid", "#", "\\'", "\\n"]):
+        q = "'" if '"' in t else '"'
+        body = M.if_([(M.cmp_(I("x"), "==", M.lit_str(t, q)), M.ret([(M.lit_str(t + " A", q), "1"), (M.lit_str("B"), "1")]))], R1)
+        shapes.append(M.program("exp", body, salt=t, splitters=["uid"] if i % 3 else ["uid", "x"], salt_q=q))
+        if i % 4 == 0:
+            shapes.append(M.program("exp", body, salt=t, splitters=None, salt_q=q))
     for p in shapes:
         fields = M.all_fields(p)
         ins = []
